@@ -1002,3 +1002,29 @@ def unload_cleanup_unconditional(chk, rule):
                        m.where(where), detail=("tabled: " + tab) if tab else "depends on %s" % sorted(extra.items()), construct=m.ident,
                        text="conditional unload step %s in %s" % (text[:50], c.name))
     chk.ob(rule, "unload clean-up steps examined (%d)" % n, n >= 25, "mpf/core/mode_device.py:1", nontrivial=False)
+
+
+def delay_add_only_schedules(chk, rule):
+    """DelayManager.add never runs what it is asked to delay: the callback (and the delay's own completion routine) is only bound with
+    partial() and handed to the clock, whatever the delay length; every returning path registers the delay with clock.schedule_once.
+    Callers arm a delay *before* the action it undoes (Driver._pulse_now arms the switch-off, then enables the coil): run at once, the
+    undo would come first and nothing would be left to undo the action."""
+    repo = chk.repo
+    f = repo.func("mpf/core/delays.py", "DelayManager.add")
+    chk.analysed(f)
+    cfg = f.cfg()
+    params = {a.arg for a in f.node.args.args}
+    direct = []
+    for x in walk_local(f.node):
+        if isinstance(x, ast.Call):
+            fn = x.func
+            if (isinstance(fn, ast.Name) and fn.id == "callback" and "callback" in params) or \
+                    (isinstance(fn, ast.Attribute) and fn.attr in ("_process_delay_callback", "run_now") and dotted(fn.value) == "self"):
+                direct.append(x)
+    chk.ob(rule, "DelayManager.add never runs the delayed callback itself", not direct, f.where(direct[0]) if direct else f.where(),
+           detail="a delay of 0 ms still runs from the clock, after the caller has finished (the caller arms the undo before the action)",
+           construct=f.ident, text="delayed callback run inside add: " + (short(direct[0], 60) if direct else "none"))
+    sched = [n.id for n, c in cfg.calls_named("schedule_once")]
+    path = cfg.must_pass(cfg.entry.id, sched) if sched else [cfg.entry.id]
+    chk.ob(rule, "every returning path of DelayManager.add registers the delay with the clock", path is None, f.where(), construct=f.ident,
+           text="add schedules on every path", path=cfg.fmt_path(path, f) if path and len(path) > 1 else None, nontrivial=True)
